@@ -126,6 +126,12 @@ func ptrConverter(dec *Decoder, o interface{}, p interface{}) {
 	}
 	if converter := GetConverter(reflect.TypeOf(o), t); converter != nil {
 		converter(dec, o, t2.PackEFace(*ptr))
+	} else if dec != nil && dec.Error == nil {
+		// as for a destination that is not a pointer (ReadReference)
+		dec.Error = CastError{
+			Source:      reflect.TypeOf(o),
+			Destination: t,
+		}
 	}
 }
 
